@@ -323,3 +323,26 @@ def run_big(shard, rec, B):
                 check_all_kinds(rec, B, G, PG, qubits, N, gs, ps, rng, dense=False)
             if N <= 70:
                 check_map_state(rec, B, gen.rand_nonid(rng, N), 2 * int(rng.integers(2)), list(range(N)), N, rng)
+        if t == 0 and B.name == "np":
+            # very long lists on few qubits, and tableaux / maps with >= 1024 rows (N >= 512)
+            for L in gen.HUGE_LS:
+                N = int(rng.integers(2, 5))
+                gs = rng.integers(0, 2, (L, 2 * N))
+                ps = rng.integers(0, 4, L)
+                for masked in (False, True):
+                    qubits = list(range(N)) if not masked else gen.rand_subset(rng, N, N - 1)
+                    check_all_kinds(rec, B, gen.rand_nonid(rng, len(qubits)), 2 * int(rng.integers(2)), qubits, N, gs, ps, rng, dense=False)
+            for N in gen.HUGE_NS:
+                G, PG = gen.rand_nonid(rng, N), 2 * int(rng.integers(2))
+                tg, tp, r = O.random_tableau(rng, N, nrot=6)
+                eg, ep = O.rot_image(G, PG, tg, tp)
+                S = B.State(tg.copy(), tp.copy(), r)
+                ok, _ = rec.attempt("rot.state", ["huge", N], lambda: S.rotate_by(B.Pauli(G, PG)))
+                if ok:
+                    lg, lp, lr = B.state(S)
+                    rec.check("rot.state", np.array_equal(lg, eg) and np.array_equal(lp, ep) and lr == r, ["huge", N, O.show(G, PG)[:40]], True)
+                ok, M = rec.attempt("rotmap", ["huge", N], lambda: B.stabilizer.clifford_rotation_map(B.Pauli(G, PG)))
+                if ok:
+                    mg, mp = B.gsps(M)
+                    xg, xp = O.map_of_rotation(G, PG)
+                    rec.check("rotmap", np.array_equal(mg, xg) and np.array_equal(mp, xp), ["huge", N], True)
